@@ -39,7 +39,9 @@ RULE = ("image case = (projection, H, W, CDELT, CRPIX, CRVAL, region circles/pol
         "position obtained by substituting 0 / the hidden value; history walk also over PV2_1/PV2_2 and LONPOLE, one "
         "header dimension per step; deep-region table = region at HEALPix depth 15/16 with rows at the centres of "
         "pixels p + k*2^32; one image > 2^16 pixels and one table > 2^16 rows; a debug-logging slice; distinct by the "
-        "full case description")
+        "full case description; region-history case = a script over two Region objects in which every mutator of the "
+        "Region API occurs once, each followed by masking calls (mask_table, sky_within, mask_plane, mask_file) "
+        "judged against the harness's own footprint of the current region")
 ASSUMPTIONS = [
     "astropy.wcs implements the FITS WCS papers: wcs_pix2world(p, origin) evaluates the transformation at the FITS "
     "coordinate p + (1 - origin) (sampled every run: origin 0 vs origin 1, and vs an independent zenithal "
@@ -1204,10 +1206,14 @@ def run(ctx):
     for h in corp:
         if h['kind'] == 'history':
             eval_history(ctx, h)
-    n_img = 70 if ctx.quick else 1800
+        elif h['kind'] == 'reghist':
+            eval_reghist(ctx, h)
+    for _ in range(8 if ctx.quick else 50):
+        eval_reghist(ctx, gen_reghist(rng, ctx.quick))
+    n_img = 70 if ctx.quick else 1300
     n_small = 30 if ctx.quick else 600
     n_line = 6 if ctx.quick else 100
-    n_tab = 60 if ctx.quick else 1500
+    n_tab = 60 if ctx.quick else 1000
     imgs = [gen_image(rng, ctx.quick) for _ in range(n_img)] + \
            [gen_image(rng, ctx.quick, small=True) for _ in range(n_small)] + \
            [one_line_cube(rng) for _ in range(n_line)]
@@ -1329,5 +1335,296 @@ def replay(ctx, rec):
         eval_tables(ctx, [c])
     elif c.get('kind') == 'history':
         eval_history(ctx, c)
+    elif c.get('kind') == 'reghist':
+        eval_reghist(ctx, c)
     elif c.get('kind') == 'index':
         index_probe(ctx)
+
+
+# ------------------------------------------------------------------------------------------------
+# histories on Region objects: every mutator of the Region API interleaved with masking calls,
+# each masking call judged against the harness's own footprint of the CURRENT region
+# ------------------------------------------------------------------------------------------------
+
+MUTATORS = ['add_circles', 'add_poly', 'add_pixels', 'union', 'without', 'intersect', 'symmetric_difference',
+            '_renorm', '_demote_all', 'saveload', 'union_norenorm', 'add_circles_shallow']
+MASKERS = ['mask_table', 'sky_within', 'mask_plane', 'mask_file']
+
+
+def _expand(pix, d, depth):
+    """descendants at `depth` of pixels given at depth d <= depth (nested scheme)"""
+    pix = np.asarray(pix, dtype=np.int64)
+    k = 4 ** (depth - d)
+    return (pix[:, None] * k + np.arange(k, dtype=np.int64)[None, :]).ravel()
+
+
+def _vec(ra, dec):
+    import healpy as hp
+    return hp.ang2vec(np.pi / 2 - np.radians(dec), np.radians(ra))
+
+
+def foot_circle(c, d, depth):
+    import healpy as hp
+    return _expand(hp.query_disc(2 ** d, _vec(c[0], c[1]), np.radians(c[2]), inclusive=True, nest=True), d, depth)
+
+
+def foot_poly(poly, d, depth):
+    import healpy as hp
+    v = np.array([_vec(a, b) for a, b in poly])
+    return _expand(hp.query_polygon(2 ** d, v, inclusive=True, nest=True), d, depth)
+
+
+def circle_pixels(c, d):
+    """the pixel ids handed to add_pixels: cells at depth d whose centre is in the circle"""
+    import healpy as hp
+    return [int(p) for p in hp.query_disc(2 ** d, _vec(c[0], c[1]), np.radians(c[2]), inclusive=False, nest=True)]
+
+
+def gen_reghist(rng, quick):
+    depth = rng.choice([7, 8, 9])
+    cell = 58.63 / 2 ** depth
+    px = round(cell / 0.55, 4)                   # HEALPix cell = 0.55 image pixel: finer than the pixel grid
+    H, W = rng.randint(10, 16), rng.randint(12, 20)
+    ra0, dec0 = round(rng.uniform(0, 360), 3), round(rng.uniform(-60, 60), 3)
+    img = dict(proj=rng.choice(PROJS), H=H, W=W, cdelt=[-px, px], crval=[ra0, dec0],
+               crpix=[round(W / 2 + rng.uniform(-1, 1), 2), round(H / 2 + rng.uniform(-1, 1), 2)])
+    ext = min(H, W) * px
+    w = make_wcs(img)
+
+    def pos(frac=0.45):
+        x = img['crpix'][0] + rng.uniform(-frac, frac) * W
+        y = img['crpix'][1] + rng.uniform(-frac, frac) * H
+        a, d = w.wcs_pix2world([[x, y]], 1)[0]
+        return [float(a), float(d)]
+
+    def circle(lo=0.12, hi=0.4):
+        return pos(0.3) + [float(ext * rng.uniform(lo, hi))]
+
+    def coords():
+        rows = [pos(0.6) for _ in range(rng.randint(8, 16))]
+        rows += [[rng.uniform(0, 360), rng.uniform(-90, 90)] for _ in range(3)]
+        rows.append([float('nan'), dec0])
+        rng.shuffle(rows)
+        return rows
+
+    def masker(on):
+        op = rng.choice(MASKERS)
+        st = dict(op=op, on=on, negate=rng.random() < 0.5)
+        if op in ('mask_table', 'sky_within'):
+            st['coords'] = coords()
+        else:
+            st['dseed'] = rng.randint(0, 2 ** 30)
+            st['dtype'] = rng.choice(['f4', 'f8'])
+            st['planes'] = rng.choice([0, 0, 2]) if op == 'mask_file' else 0
+        return st
+
+    steps = [dict(op='add_circles', on='A', circle=circle(0.25, 0.45)),
+             dict(op='add_circles', on='B', circle=circle(0.2, 0.4)),
+             masker('A'), masker('B')]
+    muts = MUTATORS[:]
+    rng.shuffle(muts)
+    for k, m in enumerate(muts):
+        on = 'AB'[k % 2] if rng.random() < 0.7 else rng.choice('AB')
+        other = 'B' if on == 'A' else 'A'
+        st = dict(op=m, on=on)
+        if m in ('add_circles', 'add_circles_shallow'):
+            st['circle'] = circle()
+            if m == 'add_circles_shallow':
+                st['at'] = depth - rng.choice([1, 2])
+        elif m == 'add_poly':
+            cx, cy = img['crpix'][0] + rng.uniform(-0.25, 0.25) * W, img['crpix'][1] + rng.uniform(-0.25, 0.25) * H
+            r = min(H, W) * rng.uniform(0.15, 0.35)
+            n = rng.choice([3, 4, 5])
+            a0 = rng.uniform(0, 2 * math.pi)
+            corners = [[cx + r * math.cos(a0 - 2 * math.pi * t / n), cy + r * math.sin(a0 - 2 * math.pi * t / n)] for t in range(n)]
+            st['poly'] = [[float(a), float(d)] for a, d in w.wcs_pix2world(corners, 1)]
+        elif m == 'add_pixels':
+            st['circle'] = circle(0.1, 0.3)
+            st['at'] = depth - rng.choice([0, 1, 2])
+        elif m in ('union', 'union_norenorm', 'without', 'intersect', 'symmetric_difference'):
+            st['other'] = other
+        steps.append(st)
+        steps.append(masker(on))                       # the mutated region is used at once ...
+        if rng.random() < 0.7:
+            steps.append(masker(other))                # ... and the two regions are used alternately
+    return dict(kind='reghist', depth=depth, image=img, steps=steps)
+
+
+def run_reghist(ctx, case):
+    """execute the script; returns None or (index of the first failing masking step, detail, signature)"""
+    from AegeanTools import MIMAS
+    from AegeanTools.regions import Region
+    from astropy.table import Table
+    from astropy.io import fits
+    depth = case['depth']
+    img = case['image']
+    H, W = img['H'], img['W']
+    w = make_wcs(img)
+    yy, xx = np.mgrid[0:H, 0:W]
+    with warnings.catch_warnings():
+        warnings.simplefilter('ignore')
+        psky = w.wcs_pix2world(np.c_[xx.ravel() + 1.0, yy.ravel() + 1.0], 1)     # own centres, FITS convention
+    reg = dict(A=Region(maxdepth=depth), B=Region(maxdepth=depth))
+    foot = dict(A=np.zeros(0, dtype=np.int64), B=np.zeros(0, dtype=np.int64))
+    past = dict(A=[], B=[])           # earlier footprints, to recognise a stale answer
+    tmp = ctx.tmpdir()
+
+    def inside_of(F, ra, dec):
+        fin, mem = membership(F, depth, ra, dec)
+        amb = np.zeros(len(mem), dtype=bool)
+        cd = np.maximum(np.cos(np.radians(np.where(fin, dec, 0.0))), 1e-6)
+        for dx, dy in ((1e-9, 0), (-1e-9, 0), (0, 1e-9), (0, -1e-9)):
+            _, m2 = membership(F, depth, np.asarray(ra) + dx / cd, np.clip(np.asarray(dec) + dy, -90, 90))
+            amb |= (m2 != mem) & fin
+        return mem, amb
+
+    for k, st in enumerate(case['steps']):
+        op, on = st['op'], st['on']
+        R = reg[on]
+        with warnings.catch_warnings():
+            warnings.simplefilter('ignore')
+            if op in MUTATORS:
+                past[on].append((k, op, foot[on]))
+                if op in ('add_circles', 'add_circles_shallow'):
+                    c = st['circle']
+                    d = st.get('at') or depth
+                    R.add_circles(math.radians(c[0]), math.radians(c[1]), math.radians(c[2]), **({'depth': d} if st.get('at') else {}))
+                    foot[on] = np.union1d(foot[on], foot_circle(c, d, depth))
+                elif op == 'add_poly':
+                    R.add_poly([(math.radians(a), math.radians(b)) for a, b in st['poly']])
+                    foot[on] = np.union1d(foot[on], foot_poly(st['poly'], depth, depth))
+                elif op == 'add_pixels':
+                    pix = circle_pixels(st['circle'], st['at'])
+                    R.add_pixels(pix, st['at'])
+                    foot[on] = np.union1d(foot[on], _expand(pix, st['at'], depth))
+                elif op in ('union', 'union_norenorm'):
+                    R.union(reg[st['other']], renorm=(op == 'union'))
+                    foot[on] = np.union1d(foot[on], foot[st['other']])
+                elif op == 'without':
+                    R.without(reg[st['other']])
+                    foot[on] = np.setdiff1d(foot[on], foot[st['other']])
+                elif op == 'intersect':
+                    R.intersect(reg[st['other']])
+                    foot[on] = np.intersect1d(foot[on], foot[st['other']])
+                elif op == 'symmetric_difference':
+                    R.symmetric_difference(reg[st['other']])
+                    foot[on] = np.setxor1d(foot[on], foot[st['other']])
+                elif op == '_renorm':
+                    R._renorm()
+                elif op == '_demote_all':
+                    R._demote_all()
+                elif op == 'saveload':
+                    fn = os.path.join(tmp, 'reghist_%s.mim' % on)
+                    R.save(fn)
+                    reg[on] = Region.load(fn)
+                continue
+            # ---- a masking call, judged against the footprint as it is NOW
+            F = foot[on]
+            neg = bool(st.get('negate'))
+            if op in ('mask_table', 'sky_within'):
+                co = np.array(st['coords'], dtype=float).reshape(-1, 2)
+                ra, dec = co[:, 0], co[:, 1]
+                ins, amb = inside_of(F, ra, dec)
+                if op == 'sky_within':
+                    got = np.asarray(R.sky_within(ra, dec, degin=True), dtype=bool)
+                    res = lambda FF: inside_of(FF, ra, dec)[0]           # noqa: E731
+                else:
+                    tab = Table(data=[np.arange(len(ra)), ra, dec, np.arange(len(ra)) * 0.5], names=('id', 'ra', 'dec', 'x'))
+                    out = MIMAS.mask_table(R, tab, negate=neg)
+                    got = np.isin(np.arange(len(ra)), np.array(out['id'], dtype=int))      # kept rows
+                    if list(out['id']) != sorted(out['id']) or not np.array_equal(np.array(out['x']), np.array(out['id']) * 0.5):
+                        return k, "mask_table reordered rows or changed another column", dict(site='mask_table', what='region-history')
+                    res = lambda FF: (inside_of(FF, ra, dec)[0] == neg)     # noqa: E731
+                want = res(F)
+                ok = ~amb
+                labels = [f"row {i} at {st['coords'][i]}" for i in range(len(ra))]
+            else:
+                ins, amb = inside_of(F, psky[:, 0], psky[:, 1])
+                ok = ~amb
+                res = lambda FF: (inside_of(FF, psky[:, 0], psky[:, 1])[0] == neg)       # noqa: E731
+                want = res(F)                                                            # must be blanked
+                rs = np.random.RandomState(st['dseed'] % (2 ** 31))
+                P = st.get('planes') or 0
+                shape = (P, H, W) if P else (H, W)
+                data = rs.standard_normal(shape).astype(np.float32 if st['dtype'] == 'f4' else np.float64)
+                if op == 'mask_plane':
+                    outd = MIMAS.mask_plane(data.copy(), w, R, neg)
+                else:
+                    fi, fo, fr = (os.path.join(tmp, 'reghist_' + s) for s in ('in.fits', 'out.fits', 'reg.mim'))
+                    hdu = fits.PrimaryHDU(data)
+                    for kk, v in make_header(img).items():
+                        hdu.header[kk] = v
+                    hdu.writeto(fi, overwrite=True)
+                    R.save(fr)
+                    MIMAS.mask_file(fr, fi, fo, negate=neg)
+                    outd = fits.getdata(fo)
+                outd = np.asarray(outd).reshape((-1, H * W))
+                orig = data.reshape((-1, H * W))
+                blank = np.isnan(outd)
+                if not all(np.array_equal(blank[p], blank[0]) for p in range(len(blank))):
+                    return k, "planes are not masked identically", dict(site=op, what='region-history')
+                keep = ~blank
+                if not np.array_equal(outd[keep], orig[keep]):
+                    return k, "a surviving pixel value changed", dict(site=op, what='region-history')
+                got = blank[0]
+                labels = [f"pixel row {i // W} col {i % W} (ra={psky[i, 0]:.5f}, dec={psky[i, 1]:.5f})" for i in range(H * W)]
+            bad = np.nonzero((got != want) & ok)[0]
+            if len(bad):
+                stale = None
+                for j, mop, Fj in reversed(past[on]):
+                    if np.array_equal(res(Fj)[ok], got[ok]):
+                        stale = (j, mop)
+                        break
+                what = {'mask_table': 'kept', 'sky_within': 'reported inside', 'mask_plane': 'blanked', 'mask_file': 'blanked'}[op]
+                i = int(bad[0])
+                muts = [(j, mop) for j, mop, _ in past[on]]
+                detail = (f"step {k} ({op} on region {on}, negate={neg}) after " + ", ".join(f"{j}:{m}" for j, m in muts[-3:])
+                          + f": {labels[i]} is {'inside' if ins[i] else 'outside'} the CURRENT footprint of the region "
+                          f"({len(F)} pixels at depth {depth}) and must {'' if want[i] else 'not '}be {what}, but was"
+                          f"{'' if got[i] else ' not'}; {len(bad)} of {int(ok.sum())} wrong"
+                          + (f"; the answer is exactly that for the footprint BEFORE step {stale[0]} ({stale[1]}): "
+                             f"the region answers for a stale footprint" if stale else ""))
+                return k, detail, dict(site=op, what='region-history', stale_footprint=bool(stale),
+                                       after=(stale[1] if stale else (muts[-1][1] if muts else 'none')))
+    return None
+
+
+def eval_reghist(ctx, case, record=True):
+    try:
+        r = run_reghist(ctx, case)
+    except Exception as e:
+        r = (len(case['steps']) - 1, f"raised {type(e).__name__}: {str(e)[:200]}",
+             dict(site='Region', what='region-history', error=type(e).__name__))
+        import traceback
+        r = (r[0], r[1] + ' @ ' + traceback.format_exc().strip().splitlines()[-3].strip()[:120], r[2])
+    if record:
+        ctx.count('region-history')
+        for st in case['steps']:
+            ctx.count('region-history/' + st['op'])
+        ctx.case(dict(kind='reghist', depth=case['depth'], steps=[s['op'] + ':' + s['on'] for s in case['steps']][:40]),
+                 nontrivial_key=json.dumps(case, sort_keys=True))
+    if r is None:
+        return None
+    if not record:
+        return 'spec'
+    k = r[0]
+    # minimise: keep the failing step last, delete earlier steps while some masking step still fails at the end
+    cur = dict(case, steps=case['steps'][:k + 1])
+
+    def fails(cc):
+        try:
+            rr = run_reghist(ctx, cc)
+        except Exception:
+            return False
+        return rr is not None and rr[0] == len(cc['steps']) - 1
+    if fails(cur):
+        i = 0
+        while i < len(cur['steps']) - 1:
+            t = dict(cur, steps=cur['steps'][:i] + cur['steps'][i + 1:])
+            if fails(t):
+                cur = t
+            else:
+                i += 1
+        r = run_reghist(ctx, cur) or r
+    ctx.fail('spec', cur, r[1], r[2])
+    return 'spec'
